@@ -60,8 +60,16 @@ def r14_4(ctx, rep):
                 return True
             i = i.parent
         return False
-    # classification sites: switches on the `.req` of a received item, outside the handler
+    # classification sites: switches on the `.req` of a received item, outside the handler; each belongs to the receive it looks at
     cls = {}
+    cls_recv = {}
+
+    def _subterms(e):
+        yield e
+        if isinstance(e, tuple):
+            for x in e:
+                if isinstance(x, tuple):
+                    yield from _subterms(x)
     for pi, es in P.succ.items():
         n = P.gnode(pi)
         if inside_handler(n):
@@ -70,23 +78,27 @@ def r14_4(ctx, rep):
             for o, v in norm_learn(learn or []):
                 if isinstance(o, tuple) and o and o[0] == "place":
                     e = origin_place_expr(g, o)
-                    if e is not None and is_field(strip_ids(e), "req") and contains(strip_ids(e), lambda x: call_is(x, r"Receiver::<T>::recv$|Iterator>?::next$")):
-                        cls.setdefault(n, o)
+                    if e is not None and is_field(strip_ids(e), "req"):
+                        src = [x[3] for x in _subterms(e) if isinstance(x, tuple) and len(x) > 3 and x[0] == "call" and x[3] in recvs]
+                        if src:
+                            cls.setdefault(n, o)
+                            cls_recv.setdefault(n, src[0])
 
     def step(ms, pi, qi, learn):
         n = P.gnode(pi)
         if n in handlers:
-            ms = "clear"
+            ms = "handled"       # the received item has been executed: looking at it again (drop elaboration, logging) owes nothing
         if n in recvs:
             if ms == "owed":
                 return "VIOL"
-            ms = "clear"
+            ms = ("clear", n)
         if ms == "VIOL":
             return ms
-        if n in cls:
+        if n in cls and ms == ("clear", cls_recv.get(n)):
+            # the FIRST look at the kind of the item just received decides; later looks at the same item (drop elaboration after it was
+            # moved out, logging) neither owe nor clear anything
             got = [v for o, v in norm_learn(learn or []) if o == cls[n]]
-            if "Write" not in got:
-                ms = "owed"
+            ms = "owed" if "Write" not in got else "write"
         return ms
     seen = run_monitor(P, "clear", step)
     bad = next(((pi, ms) for (pi, ms) in seen if ms == "VIOL"), None)
